@@ -189,6 +189,9 @@ def mk_not(sym, a):
         return C(not a[1])
     if sym == "-" and is_const(a) and isinstance(a[1], (int, float)):
         return C(-a[1])
+    if sym == "-" and isinstance(a, tuple) and a[0] == "call" and a[1] == ("x", "numpy.ones") and 1 <= len(a[2]) <= 2 and not a[3]:
+        # -np.ones(n, dtype) is np.full(n, -1, dtype)
+        return ("call", ("x", "numpy.full"), (a[2][0], C(-1)) + tuple(a[2][1:]), ())
     return ("u", sym, a)
 
 
@@ -773,6 +776,10 @@ class ANF:
             raise Unsupported("operator %s" % type(op).__name__)
         if sym == "-" and is_const(b) and isinstance(b[1], (int, float)) and not isinstance(b[1], bool):
             return mk_opn("+", [a, C(-b[1])])
+        if sym == "-":
+            d = _cancel(a, b)
+            if d is not None:
+                return d
         if sym == "%" and is_const(a) and isinstance(a[1], str) and (is_const(b) or (b[0] == "tuple" and all(is_const(x) for x in b[1]))):
             try:
                 return C(a[1] % (tuple(x[1] for x in b[1]) if b[0] == "tuple" else b[1]))
@@ -883,6 +890,11 @@ class ANF:
                 return mk_not("not", self._call_term(other, e, [inner], kw, cond, loops))
         if fn[0] == "x" and fn[1] == "numpy.divide" and len(args) == 2 and not kw:
             return ("op", "/", args[0], args[1])
+        if fn[0] == "x" and fn[1] == "numpy.arange" and len(args) == 2 and not kw:
+            n_ = _cancel(args[1], args[0])
+            if n_ is not None:
+                # np.arange(s, s + n) is np.arange(n) + s
+                return mk_opn("+", [self._call_term(fn, e, [n_], kw, cond, loops), args[0]])
         if fn[0] == "x" and fn[1] == "builtins.len" and args and args[0][0] in ("list", "tuple"):
             return C(len(args[0][1]))
         if fn[0] == "x" and fn[1] == "builtins.len" and len(args) == 1 and args[0][0] == "upd":
@@ -1202,6 +1214,24 @@ def _mentions_loop(t, lid):
                 or (x[0] == "phi" and x[1] == lid):
             return True
     return False
+
+
+def _cancel(a, b):
+    """a - b when every summand of b is a summand of a (multiset difference); None otherwise"""
+    ia = list(a[2]) if isinstance(a, tuple) and a[0] == "opn" and a[1] == "+" else [a]
+    ib = list(b[2]) if isinstance(b, tuple) and b[0] == "opn" and b[1] == "+" else [b]
+    rest = list(ia)
+    for x in ib:
+        kx = key(x)
+        for i_, y in enumerate(rest):
+            if key(y) == kx:
+                del rest[i_]
+                break
+        else:
+            return None
+    if not rest:
+        return C(0)
+    return mk_opn("+", rest) if len(rest) > 1 else rest[0]
 
 
 def _fn_output(t):
